@@ -13,7 +13,8 @@ def record_events(items, work, name="ev", script="events.py", py=None, env=None,
     size = (len(items) + n - 1) // n
     shards = [items[k * size:(k + 1) * size] for k in range(n)]
     shards = [sh for sh in shards if sh]
-    jobs = [{"out": os.path.join(work, "%s.%d.out" % (name, k)), "items": sh} for k, sh in enumerate(shards)]
+    # every other shard is recorded after a warm-up history (all entry points and APIs exercised once in that process)
+    jobs = [{"out": os.path.join(work, "%s.%d.out" % (name, k)), "items": sh, "warm": k % 2 == 1} for k, sh in enumerate(shards)]
     run_driver(script, jobs, work, name=name, py=py, env=env)
     merged = []
     for j in jobs:
@@ -157,6 +158,16 @@ def run(prop, tier, seed):
                     raise MachineryError("generator produced a vector the library rejects: %s (C04 decides whether that is a defect)" % e["s"])
             judge(c, prop, ev, work, "construct")
             c.evaluations = len(ev)
+            if prop in ("C07", "C08"):
+                # whatever else the library accepts (near misses: case variants, fault pairs, prefix variants, edits) is judged too:
+                # whether it should have been accepted is C04's question, what is printed for it is this property's
+                nm = corpus.near_misses(rnd, 1500 if not big else 25000)
+                nitems = [{"op": "construct", "ver": ver, "s": esc(s), "json": False} for s in dict.fromkeys(nm) for ver in "234"]
+                nev = [e for e in record_events(nitems, work, name="near") if e["out"]["cls"] == "ok"]
+                judge(c, prop, nev, work, "accepted-near-misses")
+                c.evaluations += len(nitems)
+                c.extra["near_misses_offered"] = len(nitems)
+                c.extra["near_misses_accepted_and_judged"] = len(nev)
             if prop == "C15":
                 # the same events recorded under the interpreter's optimisation mode (assert statements removed): every fourth vector
                 ev2 = record_events(items[::4], work, name="opt", env={"PYTHONOPTIMIZE": "1"})
@@ -211,7 +222,7 @@ def run(prop, tier, seed):
                 # the interactive builder's return value: complete sessions, official pattern demanded
                 from props import interactive16
                 its = [i for i in interactive16.targeted_scripts(rnd)]
-                its = [i for i in its if i["all"]][::3] + [i for i in its if not i["all"]][::7]
+                its = [i for i in its if i["all"]][::3] + [i for i in its if not i["all"]][::7] + interactive16.echo_scripts(rnd, work)
                 sess = record_events(its, work, name="sess", script="interactive.py")
                 sess_done = [s_ for s_ in sess if s_["events"] and s_["events"][-1]["ev"] == "Return"]
                 bver_map = {"2": ("2", -1), "3.0": ("3", 0), "3.1": ("3", 1), "4.0": ("4", -1)}
